@@ -27,9 +27,9 @@ ASSUMPTIONS = [
     "printing is pymbolic's stringifier (dagrt defines none of its own); parse is dagrt.expression.parse",
 ]
 ANCHORS = ["dagrt.expression:parse", "dagrt.expression:_ExtendedParser.parse_terminal"]
-MIN_NONTRIVIAL = {"quick": 8000, "thorough": 150000}
-REQUIRED_COUNTERS = {"quick": ["round_trips", "value_points_compared", "backtick_names"],
-                     "thorough": ["round_trips", "value_points_compared", "backtick_names"]}
+MIN_NONTRIVIAL = {"quick": 8000, "thorough": 840000}
+REQUIRED_COUNTERS = {"quick": ["round_trips", "value_points_compared", "backtick_names", "all_names_quoted_round_trips"],
+                     "thorough": ["round_trips", "value_points_compared", "backtick_names", "all_names_quoted_round_trips"]}
 SHARD_TIMEOUT = {"quick": 900, "thorough": 3000}
 
 AVARS = ["x", "y_1", "<state>y", "<p>x", "<t>", "<dt>", "<ret_state>y", "kk"]
@@ -43,7 +43,7 @@ CMPS = ["<", "<=", ">", ">=", "==", "!="]
 
 def plan(tier, seed):
     sh = [{"kind": "exh", "k": k, "n": 8} for k in range(8)]
-    per = 1500 if tier == "quick" else 20000
+    per = 1500 if tier == "quick" else 160000
     sh += [{"kind": "rand", "seed": f"C19:{seed}:{k}", "count": per} for k in range(16)]
     sh.append({"kind": "names"})
     return sh
@@ -228,6 +228,32 @@ def roundtrip(e, rec=None):
                     f"(exact rational arithmetic)")
     if s1 != s2:
         return ("prints-differently", f"{s1!r} re-parsed prints {s2!r}")
+    # the same text with EVERY name written between backticks must denote the same expression
+    # (pymbolic prints products, powers, calls and subscripts without blanks, so quoted names end up adjacent)
+    from pymbolic.mapper.substitutor import SubstitutionMapper
+    from pymbolic.primitives import Variable
+
+    def quote(v):
+        if isinstance(v, Variable) and not v.name.startswith("`"):
+            return Variable("`" + v.name + "`")
+        return None
+    try:
+        sq = str(SubstitutionMapper(quote)(pe))
+    except Exception:
+        return None
+    if "`" not in sq:
+        return None
+    try:
+        with case_alarm(10):
+            backq = parse(sq)
+    except CaseTimeout:
+        raise
+    except Exception as ex:
+        return ("quoted-parse-raises", f"parse({sq!r}) raised {type(ex).__name__}: {ex}")
+    if rec is not None:
+        rec.count("all_names_quoted_round_trips")
+    if backq != back:
+        return ("quoted-names-parse-differently", f"parse({sq!r}) = {backq!r}, but parse({s1!r}) = {back!r}")
     return None
 
 
